@@ -98,10 +98,10 @@ Definition tk_logline_date : list stm :=
   [SEv (Call "read_line"); SEv (Call "extracted_datetime"); SExit].
 
 Definition tk_sequence_search : list stm :=
-  [SEv (Call "start_run"); SEv (Rd "s_end"); SEv (Rd "started"); SIf [SIf [SEv (Rd "section_id"); SEv (Call "results_remove"); SEv (Call "def_reset")] [SEv (Call "end_run")]] []; SIf [SEv (Rd "started"); SIf [SEv (Call "def_start"); SEv (Rd "section_id")] [SEv (Rd "s_end"); SEv (Rd "section_id"); SEv (Call "def_stop"); SEv (Rd "s_end"); SIf [SEv (Call "def_start"); SEv (Rd "section_id")] []]; SEv (Call "results_add")] [SEv (Rd "started"); SEv (Rd "s_body"); SIf [SEv (Rd "section_id"); SEv (Call "body_run"); SIf [SEv (Rd "s_body"); SEv (Call "results_add")] []] []]].
+  [SEv (Call "start_run"); SEv (Wr "ret"); SEv (Rd "s_end"); SEv (Rd "started"); SIf [SEv (Rd "ret"); SIf [SEv (Rd "section_id"); SEv (Call "results_remove"); SEv (Call "def_reset")] [SEv (Call "end_run"); SEv (Wr "ret")]] []; SEv (Rd "ret"); SIf [SEv (Rd "started"); SIf [SEv (Call "def_start"); SEv (Rd "section_id")] [SEv (Rd "s_end"); SEv (Rd "section_id"); SEv (Call "def_stop"); SEv (Rd "s_end"); SIf [SEv (Call "def_start"); SEv (Rd "section_id")] []]; SEv (Rd "ret"); SEv (Call "results_add")] [SEv (Rd "started"); SEv (Rd "s_body"); SIf [SEv (Rd "section_id"); SEv (Call "body_run"); SEv (Wr "ret"); SEv (Rd "ret"); SIf [SEv (Rd "ret"); SEv (Rd "s_body"); SEv (Call "results_add")] []] []]].
 
 Definition tk_process_sequence_results : list stm :=
-  [SEv (Wr "filter"); SLoop [SIf [SExit] []; SEv (Rd "started"); SIf [SExit] []; SEv (Rd "s_end"); SIf [SExit] []; SEv (Call "end_run_empty"); SIf [SEv (Rd "section_id"); SEv (Rd "s_end"); SEv (Call "results_add")] [SEv (Rd "filter"); SIf [SEv (Wr "filter")] []; SEv (Rd "filter"); SEv (Rd "section_id")]]; SIf [SExit] []; SEv (Rd "filter"); SLoop [SLoop [SEv (Rd "filter"); SIf [SIf [SExit] []; SEv (Rd "filter"); SIf [SEv (Rd "filter"); SIf [SExit] []] []] []; SEv (Call "buffer_append"); SIf [SEv (Call "flush")] []]]].
+  [SEv (Wr "filter"); SLoop [SIf [SExit] []; SEv (Rd "started"); SIf [SExit] []; SEv (Rd "s_end"); SIf [SExit] []; SEv (Call "end_run_empty"); SEv (Wr "ret"); SEv (Rd "ret"); SIf [SEv (Rd "section_id"); SEv (Rd "ret"); SEv (Rd "s_end"); SEv (Call "results_add")] [SEv (Rd "filter"); SIf [SEv (Wr "filter")] []; SEv (Rd "filter"); SEv (Rd "section_id")]]; SIf [SExit] []; SEv (Rd "filter"); SLoop [SLoop [SEv (Rd "filter"); SIf [SIf [SExit] []; SEv (Rd "filter"); SIf [SEv (Rd "filter"); SIf [SExit] []] []] []; SEv (Call "buffer_append"); SIf [SEv (Call "flush")] []]]].
 
 Definition tk_searchdef_run : list stm :=
   [SEv (Rd "hint"); SIf [SEv (Call "hint_search"); SIf [SExit] []] []; SEv (Rd "patterns"); SLoop [SEv (Call "pattern_match"); SIf [SExit] []]; SExit].
